@@ -72,7 +72,11 @@ class SL:
     __hash__ = None
 
 
-CLASSES = {"PA": PA, "PB": PB, "PN": PN, "SL": SL}
+import collections
+NT = collections.namedtuple("NT", ["x", "y"])     # a namedtuple: _diff_tuple hands it to _diff_obj(is_namedtuple=True): attributes x, y
+
+CLASSES = {"PA": PA, "PB": PB, "PN": PN, "SL": SL, "NT": NT}
+DIFF_CLASSES = ("PA", "PB", "PN", "SL", "NT")       # C02 / C04 / C09 streams; Delta cannot setattr on a namedtuple (C01 stream: without NT)
 OBJ_TYPES = tuple(CLASSES.values())
 ATTR_NAMES = ["x", "y", "z", "w"]
 TAG = "\x00"
@@ -92,6 +96,8 @@ def attrs_of(o):
     """(name, value) in __dict__ insertion order; for the __slots__ class the slots that are set, in slot order"""
     if isinstance(o, SL):
         return [(k, getattr(o, k)) for k in SL.__slots__ if hasattr(o, k)]
+    if isinstance(o, NT):
+        return list(o._asdict().items())
     return list(o.__dict__.items())
 
 
@@ -197,15 +203,17 @@ def to_coq_o(v):
 PLAIN_KW = dict(strings=V.STR_POOL + ["a\nb", "a\nc\n"])
 
 
-def gen_obj(rng, depth, classes=("PA", "PB", "PN", "SL"), kinds="LTDSFA"):
+def gen_obj(rng, depth, classes=DIFF_CLASSES, kinds="LTDSFA"):
     cls = rng.choice(classes)
     names = list(ATTR_NAMES)
     rng.shuffle(names)
     names = names[:rng.choice([0, 1, 1, 2, 2, 3, 4])]
+    if cls == "NT":
+        names = ["x", "y"]
     return mk_obj(cls, [(n, gen_o(rng, depth - 1, classes, kinds)) for n in names])
 
 
-def gen_o(rng, depth=3, classes=("PA", "PB", "PN", "SL"), kinds="LTDSFA", p_obj=0.35):
+def gen_o(rng, depth=3, classes=DIFF_CLASSES, kinds="LTDSFA", p_obj=0.35):
     """a tree-shaped value with class instances at any level (attributes, list items, dict values)"""
     if depth <= 0:
         return V.gen_atom(rng)
@@ -266,7 +274,7 @@ def set_at_o(v, path, new):
 OBJ_EDITS = ["attr_changed", "attr_added", "attr_removed", "class_changed", "obj_to_value", "obj_replaced", "attrs_reordered"]
 
 
-def edit_o(rng, v, classes=("PA", "PB", "PN", "SL"), kinds="LTDSFA"):
+def edit_o(rng, v, classes=DIFF_CLASSES, kinds="LTDSFA"):
     """one edit; returns (new value, edit kind).  Object-specific edits when an object is hit,
     values.edit on object-free sub-values, insert/delete on sequences that hold objects."""
     pos = list(positions_o(v))
@@ -278,6 +286,8 @@ def edit_o(rng, v, classes=("PA", "PB", "PN", "SL"), kinds="LTDSFA"):
             o = get_at_o(v, p)
             at = attrs_of(o)
             kind = rng.choice(OBJ_EDITS)
+            if cls_name(o) == "NT" and kind in ("attr_added", "attr_removed", "attrs_reordered"):
+                continue                      # a namedtuple has exactly its fields
             if kind == "attr_changed" and at:
                 k, x = rng.choice(at)
                 if rng.random() < 0.5 or has_obj(x):
@@ -299,7 +309,7 @@ def edit_o(rng, v, classes=("PA", "PB", "PN", "SL"), kinds="LTDSFA"):
                 k = rng.choice(at)[0]
                 return set_at_o(v, p, mk_obj(cls_name(o), [(a, x) for a, x in at if a != k])), kind
             if kind == "class_changed":
-                others = [c for c in classes if c != cls_name(o)]
+                others = [c for c in classes if c != cls_name(o) and (c != "NT" or sorted(dict(at)) == ["x", "y"])]
                 if not others:
                     continue
                 return set_at_o(v, p, mk_obj(rng.choice(others), at)), kind
@@ -324,6 +334,8 @@ def edit_o(rng, v, classes=("PA", "PB", "PN", "SL"), kinds="LTDSFA"):
             if k is None:
                 continue
             return set_at_o(v, p, nv), "plain:" + k
+        if is_obj(sub):
+            continue
         if isinstance(sub, (list, tuple)):
             c = list(sub)
             if c and rng.random() < 0.5:
@@ -345,7 +357,7 @@ def edit_o(rng, v, classes=("PA", "PB", "PN", "SL"), kinds="LTDSFA"):
     return copy.deepcopy(v), "none"
 
 
-def gen_pair(rng, classes=("PA", "PB", "PN", "SL"), kinds="LTDSFA", depth=3):
+def gen_pair(rng, classes=DIFF_CLASSES, kinds="LTDSFA", depth=3):
     """(t1, t2, edit kinds): t1 with at least one object, t2 = 0-3 edits of t1 (or independent)"""
     for _ in range(50):
         t1 = gen_o(rng, depth, classes, kinds)
@@ -434,9 +446,9 @@ def recorded_opaths(dd, t1):
 
 
 HDR = ("From DD Require Import Base.PyStr Base.Value Path.PathModel Diff.Tree Diff.DiffModel Diff.TextView Diff.DiffShow "
-       "Delta.DeltaModel Delta.DeltaShow Obj.ObjValue Obj.ObjModel Obj.ObjText Obj.ObjShow.")
+       "Delta.DeltaModel Delta.DeltaShow Delta.DeltaChain Delta.DeltaHyp Obj.ObjValue Obj.ObjModel Obj.ObjText Obj.ObjShow.")
 
-THRS = (0.33, 0.5, 1)       # threshold_to_diff_deeper = 0 is outside the object model (NOTES.md)
+THRS = (0, 0.33, 0.5, 1)    # threshold_to_diff_deeper; at 0 the model puts the type change of a class-changing pair back (ObjModel.tagfix)
 
 
 def _tables(t1, t2):
@@ -783,7 +795,8 @@ def enc_pathc(root, p):
 
 
 def impl_orders_o(delta, t1, t2):
-    """visiting orders of the sorted passes, as encoded paths (removals are looked up in t1, additions in t2)"""
+    """visiting orders of the sorted passes, as encoded paths (removals are looked up in t1, additions in t2;
+    for a reversed delta pass (t2, t1))"""
     from deepdiff import Delta
     from functools import cmp_to_key
 
@@ -806,13 +819,71 @@ def impl_orders_o(delta, t1, t2):
 
 
 def model_delta_expr(t1, t2, zip_, thr, bidir, always, base, conv_tbl, rem, add):
+    """SL [applied result; the hypotheses of C01_objects_roundtrip_partial observed on this run: guardsb on the encodings,
+    valid difflib opcodes, descending / ascending visiting orders]"""
+    ud, ops = _tables(t1, t2)
+    b = lambda x: "true" if x else "false"
+    cfg = D.coq_cfg(zip_, thr, True)
+    return ("(let cv := tbl_conv %s in "
+            "let d := odelta hatom_deep (tbl_udiff %s) (tbl_ops %s) %s cv %s %s %s %s in "
+            "let ro := order_by %s fst in let ao := order_by %s fst in "
+            "SL [sx_oresult (oapply cv ro ao d %s); "
+            "sx_hyp (guardsb %s %s %s (enc %s) (enc %s)) (ops_table_okb (enc %s) (enc %s) %s) (orders_okb ro ao d)])") % (
+        conv_tbl, ud, ops, cfg, b(bidir), b(always), to_coq_o(t1), to_coq_o(t2),
+        DC.coq_paths(rem), DC.coq_paths(add), to_coq_o(base),
+        cfg, b(bidir), b(always), to_coq_o(t1), to_coq_o(t2), to_coq_o(t1), to_coq_o(t2), ops)
+
+
+def model_sub_expr(t1, t2, zip_, thr, bidir, always, base, conv_tbl, rrem, radd):
+    """base - Delta(DeepDiff(t1, t2)) in the model"""
     ud, ops = _tables(t1, t2)
     b = lambda x: "true" if x else "false"
     return ("(let cv := tbl_conv %s in "
             "let d := odelta hatom_deep (tbl_udiff %s) (tbl_ops %s) %s cv %s %s %s %s in "
-            "sx_oresult (oapply cv (order_by %s fst) (order_by %s fst) d %s))") % (
+            "sx_osub_result (osub cv (order_by %s fst) (order_by %s fst) d %s))") % (
         conv_tbl, ud, ops, D.coq_cfg(zip_, thr, True), b(bidir), b(always), to_coq_o(t1), to_coq_o(t2),
-        DC.coq_paths(rem), DC.coq_paths(add), to_coq_o(base))
+        DC.coq_paths(rrem), DC.coq_paths(radd), to_coq_o(base))
+
+
+def observe_hyp_o(ctx, t1, t2, bidir, always, delta):
+    """the hypotheses of the object round-trip theorem on what the implementation supplied (Python mirrors of
+    DeltaChain.guardsb / DeltaHyp.ops_table_okb / orders_okb, on the encodings); counted"""
+    from deepdiff import Delta
+    from functools import cmp_to_key
+    e1, e2 = enc_py(t1), enc_py(t2)
+    g = DC.guardsb_py(e1, e2, bidir, always)
+    ops_ok = DC.ops_table_ok_py(e1, e2, D.opcode_table(e1, e2))
+
+    def order(items, reverse, root):
+        try:
+            s = sorted(items.items(), key=Delta._sort_key_for_item_added, reverse=reverse)
+        except TypeError:
+            s = sorted(items.items(), key=cmp_to_key(Delta._sort_comparison), reverse=reverse)
+        return [enc_pathc(root, p) for p, _ in s]
+    diff = delta.diff
+    irem = dict(diff.get("iterable_item_removed", {}))
+    irem.update({k: v["value"] for k, v in diff.get("iterable_item_moved", {}).items()})
+    iadd = dict(diff.get("iterable_item_added", {}))
+    iadd.update({v["new_path"]: None for v in diff.get("iterable_item_moved", {}).values()})
+    keep_rem = set(diff.get("iterable_item_removed", {}))
+    keep_add = set(diff.get("iterable_item_added", {}))
+
+    def order_keep(items, reverse, root, keep):
+        try:
+            s = sorted(items.items(), key=Delta._sort_key_for_item_added, reverse=reverse)
+        except TypeError:
+            s = sorted(items.items(), key=cmp_to_key(Delta._sort_comparison), reverse=reverse)
+        return [enc_pathc(root, p) for p, _ in s if p in keep]
+    r6 = order_keep(irem, True, t1, keep_rem)
+    r9 = order(dict(diff.get("dictionary_item_removed", {})), True, t1) + order(dict(diff.get("attribute_removed", {})), True, t1)
+    a7 = order_keep(iadd, False, t2, keep_add)
+    ord_ok = DC.desc_ok(r6) and DC.desc_ok(r9) and DC.asc_ok(a7)
+    ctx.count("obj_c01:hyp:guardsb_" + ("true" if g else "false"))
+    ctx.count("obj_c01:hyp:valid_ops_" + ("true" if ops_ok else "false"))
+    ctx.count("obj_c01:hyp:orders_ok_" + ("true" if ord_ok else "false"))
+    if g and ops_ok and ord_ok:
+        ctx.count("obj_c01:hyp:all_hypotheses_hold")
+    return [g, ops_ok, ord_ok]
 
 
 def slots_attr_removed(t1, t2, diff):
@@ -828,12 +899,30 @@ def slots_attr_removed(t1, t2, diff):
     return False
 
 
+def has_identity_obj(v):
+    """holds (at any depth reachable by ==) an instance of the class without __eq__: a copy of v is != v"""
+    if isinstance(v, PN):
+        return True
+    if is_obj(v):
+        return any(has_identity_obj(x) for _k, x in attrs_of(v))
+    if isinstance(v, (list, tuple)):
+        return any(has_identity_obj(x) for x in v)
+    if isinstance(v, dict):
+        return any(has_identity_obj(x) for x in v.values())
+    return False
+
+
+def identity_item_removed(diff):
+    """an iterable_item_removed entry whose value holds an instance of a class that compares by identity"""
+    return any(has_identity_obj(v) for v in (diff.get("iterable_item_removed", {}) or {}).values())
+
+
 def c01_pair(ctx, t1, t2, cases, corr=True):
     from deepdiff import DeepDiff, Delta
     zip_ = ctx.rng.random() < 0.3
     thr = ctx.rng.choice(THRS)
     has_pn = "PN" in _classes_in(t1, t2)
-    bidir = (not has_pn) and ctx.rng.random() < 0.4     # verification compares with ==: identity for a class without __eq__
+    bidir = (not has_pn) and ctx.rng.random() < 0.5     # verification compares with ==: identity for a class without __eq__
     always = ctx.rng.random() < 0.3
     cfg = dict(zip=zip_, thr=thr, bidirectional=bidir, always_include_values=always, prop="C01")
     a, b = copy.deepcopy(t1), copy.deepcopy(t2)
@@ -860,11 +949,12 @@ def c01_pair(ctx, t1, t2, cases, corr=True):
         except Exception as e:
             res, exc = None, e
     slots_rem = slots_attr_removed(t1, t2, delta.diff)
+    ident_rem = identity_item_removed(delta.diff)
     guard_ok = no_tuple_parent(t1) and no_tuple_parent(t2) and DC.alias_free_py(enc_py(t1), enc_py(t2)) \
         and not hidden_private(t1) and not hidden_private(t2)
     ctx.count("obj_c01:guard_ok" if guard_ok else "obj_c01:outside_guard")
     ctx.seen(("c01", repr(t1), repr(t2), zip_, thr, bidir, always), nontrivial=bool(dd))
-    case = _case(t1, t2, slots_attr_removed=slots_rem, guard_ok=guard_ok, **cfg)
+    case = _case(t1, t2, slots_attr_removed=slots_rem, identity_item_removed=ident_rem, guard_ok=guard_ok, **cfg)
     if exc is not None:
         case["clause"] = "t1 + delta raised " + type(exc).__name__
         ctx.fail(case, "t1 + Delta(DeepDiff(t1, t2)) raised " + repr(exc))
@@ -872,6 +962,11 @@ def c01_pair(ctx, t1, t2, cases, corr=True):
         # observation OBJ1 (DESIGN.md 7.1, "recorded but not filed"): Delta deletes a removed attribute with
         # `del obj.__dict__[elem]`, which cannot work on an instance of a __slots__ class; counted, not a failure
         ctx.count("obj_c01:OBJ1_slots_attribute_removed_not_applied")
+    elif guard_ok and ident_rem and not oeq(res, t2):
+        # observation OBJ2 (coq/theories/Obj/NOTES.md): Delta._do_item_removed compares the item found at the index with the
+        # stored one by `!=`; a (deep-copied) instance of a class without __eq__ is != its original, the list search for an
+        # equal item finds nothing, and the removal is skipped without an error; counted, not a failure
+        ctx.count("obj_c01:OBJ2_identity_compared_item_not_removed")
     elif guard_ok:
         if not oeq(res, t2):
             case["clause"] = "round trip differs"
@@ -885,11 +980,45 @@ def c01_pair(ctx, t1, t2, cases, corr=True):
         ctx.fail(case, "t1 + delta modified t1 (mutate=False)")
     # correspondence of the applied result (objects below tuples and __slots__ removals: the implementation behaves
     # differently from a functional update - recorded as outside / finding OBJ1)
-    if corr and exc is None and in_guard(t1, t2) and no_tuple_parent(t1) and no_tuple_parent(t2) and not slots_rem:
+    if corr and exc is None and in_guard(t1, t2) and no_tuple_parent(t1) and no_tuple_parent(t2) and not slots_rem and not ident_rem:
         rem, add = impl_orders_o(delta, t1, t2)
+        hyp = observe_hyp_o(ctx, t1, t2, bidir, always, delta)
+        if hyp == [True, True, True] and thr > 0 and (cnt.n or not oeq(res, t2)):
+            # inside every hypothesis of C01_objects_roundtrip_partial the model gives t2 without error; the
+            # implementation (compared with the model right below) must do the same
+            ctx.break_("correspondence", {"name": "obj_c01 theorem instance", "case": case,
+                                          "detail": "all hypotheses of the object round-trip theorem hold, the implementation's result differs from t2"})
         cases.append((model_delta_expr(t1, t2, zip_, thr, bidir, always, t1, conv_tbl, rem, add),
-                      [canon_o(res, True), cnt.n > 0],
+                      [[canon_o(res, True), cnt.n > 0], hyp],
                       dict(t1=repr(t1), t2=repr(t2), block="Obj", what="t1 + delta", **cfg)))
+        # the reverse direction (C08's subject; correspondence only): t2 - delta, or the refusal of a one-way delta
+        base2 = copy.deepcopy(t2)
+        with DC.Counting() as cnt2:
+            try:
+                back = base2 - delta
+                exc2 = None
+            except Exception as e:
+                back, exc2 = None, e
+        if not bidir:
+            if exc2 is not None and ctx.rng.random() < 0.12:
+                ctx.count("obj_c01:reverse:refused_not_bidirectional")
+                cases.append((model_sub_expr(t1, t2, zip_, thr, bidir, always, t2, conv_tbl, [], []), "NotBidirectional",
+                              dict(t1=repr(t1), t2=repr(t2), block="Obj", what="t2 - delta (one-way delta)", **cfg)))
+        elif exc2 is None:
+            rd = Delta(dd, bidirectional=True, always_include_values=always, raise_errors=False)
+            rd.diff = rd._get_reverse_diff()
+            # OBJ1 / OBJ2 in the reverse direction: attributes added to a __slots__ instance, items holding an
+            # identity-compared instance added to a list
+            if slots_attr_removed(t2, t1, rd.diff) or identity_item_removed(rd.diff):
+                ctx.count("obj_c01:reverse:OBJ1_or_OBJ2")
+            else:
+                rrem, radd = impl_orders_o(rd, t2, t1)
+                ctx.count("obj_c01:reverse:t2_minus_delta")
+                if oeq(back, t1) and not cnt2.n:
+                    ctx.count("obj_c01:reverse:gives_t1")
+                cases.append((model_sub_expr(t1, t2, zip_, thr, bidir, always, t2, conv_tbl, rrem, radd),
+                              [canon_o(back, True), cnt2.n > 0],
+                              dict(t1=repr(t1), t2=repr(t2), block="Obj", what="t2 - delta", **cfg)))
 
 
 def stream_c01(ctx, n=None):
